@@ -115,6 +115,10 @@ def _family(run, fam, plan):
                 for r in rejects:
                     run.violation("%s;runs-differ;%s" % (name, r["case"]), "two runs differ at event %s" % r["l"],
                                   {"family": name, "dir": wd, "line": r["l"]})
+        # "depends only on content": a directory that is loaded, edited and loaded again IN ONE PROCESS gives the outcome of its new
+        # content (a language server expands the macro again and again in one process)
+        if name in ("keys", "plurals", "fallback", "ranges"):
+            loadfam.replay_reload(run, cases[:80], tmod, tcfg, lambda c, r, nm=name: _key(nm, "json", None, c, r), trace_env=tenv, tag="_reload_" + name)
         # generated code: the token text of the real code generator must be identical across two fresh runs and
         # across a permutation of the key order (variants 0 = identity and 1 = seeded permutation, both JSON)
         if name in ("fk-families", "values", "keys", "fallback", "plurals"):
